@@ -180,6 +180,19 @@ CLAIMED["C18"] = dict(
     technique="Lean 4 theorems (CSV field and record round trip for all contents and option characters) + two-way differential tie + round-trip streams",
     design="§5 C18")
 
+CLAIMED["C17"] = dict(
+    text="A Lean 4 model of what the reflection traits compute over a universe of type descriptors (integers, string, bool, sequences, sets, maps, tuples, "
+         "pairs, fixed arrays, optionals/pointers, enums, variants, member-macro structs with mandatory and optional members): conv t j = convert j to the "
+         "type and express it as JSON again. Proved for the container/scalar fragment: the conversion is a retraction (a converted value converts to itself = "
+         "typed round trip) and failure carries no value; short tuples and wrong-length arrays are errors. Tie: 23 concrete C++ types mirroring the descriptors "
+         "x JSON/CBOR/MessagePack/UBJSON/BSON, generated fitting and mis-shaped values, both routes (basic_json as<T>/json(T) and decode_X<T>/encode_X(T)), "
+         "try_ variants, typed re-encoding and round trip compared with each other and with the model.",
+    note="Partial: templates cannot be quantified over; only the 23 types of the family are exercised, and sets, variants and structs are outside the "
+         "theorem. Integer narrowing (as<T> converts modulo 2^n), integers from strings and stringification (D57, known) are unjudged. std::set<int> does not "
+         "compile with the streaming encoders (compile-time, noted in DESIGN.md). Found and fixed: D58 (tuple out-of-bounds read) D59 D60 D61 D62.",
+    technique="Lean 4 conversion model + retraction theorem + differential check of both typed routes in five formats",
+    design="§5 C17")
+
 ALL = ["C%02d" % i for i in range(1, 21)]
 NOT_YET = "not claimed yet: the Lean model, theorems and correspondence harness for this property are still being built (see DESIGN.md §8 staging)"
 
